@@ -309,23 +309,142 @@ theorem applyMods_key (ms : List Mod) : ∀ (a : Arg), (applyMods a ms).1.key = 
     | throw e => rfl
     | oob w => rfl
 
-theorem addArgument_distinct (h : Handler) (a : Arg) (mods : List Mod) (hd : KeysDistinct h.args) :
-    KeysDistinct (h.addArgument a mods).1.args := by
+theorem applyMod_subGroup (a a' : Arg) (m : Mod) (h : applyMod a m = .ok a') : a'.subGroup = a.subGroup := by
+  cases m <;> simp only [applyMod] at h
+  all_goals (repeat' split at h) <;> simp at h <;> subst h <;> rfl
+
+theorem applyMods_subGroup (ms : List Mod) : ∀ (a : Arg), (applyMods a ms).1.subGroup = a.subGroup := by
+  induction ms with
+  | nil => intro a; rfl
+  | cons m ms ih =>
+    intro a
+    rw [applyMods]
+    cases hm : applyMod a m with
+    | ok a' => simp only; rw [ih a', applyMod_subGroup a a' m hm]
+    | throw e => rfl
+    | oob w => rfl
+
+theorem plainArgs_append (xs ys : List Arg) : plainArgs (xs ++ ys) = plainArgs xs ++ plainArgs ys := by
+  unfold plainArgs; rw [List.filter_append]
+
+theorem subGroupArgs_append (xs ys : List Arg) : subGroupArgs (xs ++ ys) = subGroupArgs xs ++ subGroupArgs ys := by
+  unfold subGroupArgs; rw [List.filter_append]
+
+theorem keysDistinct_snoc (xs : List Arg) (a : Arg) (k : Key) (hd : KeysDistinct xs) (hk : a.key = k)
+    (hs : storageAccepts xs k = true) : KeysDistinct (xs ++ [a]) := by
+  unfold KeysDistinct
+  rw [List.pairwise_append]
+  refine ⟨hd, by simp, ?_⟩
+  intro x hx y hy
+  simp at hy; subst hy
+  rw [hk]
+  unfold storageAccepts at hs
+  have := List.all_eq_true.mp hs x hx
+  simp at this
+  exact this.1
+
+/-- `addArgument` keeps the keys of each of the two containers (`mArguments`, `mSubGroupArgs`) pairwise different -/
+theorem addArgument_distinct (h : Handler) (a : Arg) (mods : List Mod)
+    (hp : KeysDistinct (plainArgs h.args)) (hs : KeysDistinct (subGroupArgs h.args)) :
+    KeysDistinct (plainArgs (h.addArgument a mods).1.args)
+    ∧ KeysDistinct (subGroupArgs (h.addArgument a mods).1.args) := by
   unfold Handler.addArgument
-  by_cases hs : storageAccepts h.args a.key = true
-  · rw [if_neg (by simp [hs])]
+  by_cases hacc : storageAccepts (sameContainer a h.args) a.key = true
+  · rw [if_neg (by simp [hacc])]
     simp only
-    unfold KeysDistinct
-    rw [List.pairwise_append]
-    refine ⟨hd, by simp, ?_⟩
-    intro x hx y hy
-    simp at hy; subst hy
-    rw [applyMods_key]
-    unfold storageAccepts at hs
-    have := List.all_eq_true.mp hs x hx
-    simp at this
-    exact this.1
-  · rw [if_pos (by simpa using hs)]
-    exact hd
+    rw [plainArgs_append, subGroupArgs_append]
+    have hsg := applyMods_subGroup mods a
+    have hkey := applyMods_key mods a
+    unfold sameContainer at hacc
+    cases hg : a.subGroup with
+    | none =>
+      rw [hg] at hacc hsg
+      simp only [Option.isSome_none, Bool.false_eq_true, if_false] at hacc
+      have e1 : plainArgs [(applyMods a mods).1] = [(applyMods a mods).1] := by simp [plainArgs, hsg]
+      have e2 : subGroupArgs [(applyMods a mods).1] = [] := by simp [subGroupArgs, hsg]
+      rw [e1, e2, List.append_nil]
+      exact ⟨keysDistinct_snoc _ _ _ hp hkey hacc, hs⟩
+    | some k =>
+      rw [hg] at hacc hsg
+      simp only [Option.isSome_some, if_true] at hacc
+      have e1 : plainArgs [(applyMods a mods).1] = [] := by simp [plainArgs, hsg]
+      have e2 : subGroupArgs [(applyMods a mods).1] = [(applyMods a mods).1] := by simp [subGroupArgs, hsg]
+      rw [e1, e2, List.append_nil]
+      exact ⟨hp, keysDistinct_snoc _ _ _ hs hkey hacc⟩
+  · rw [if_pos (by simpa using hacc)]
+    exact ⟨hp, hs⟩
+
+/-! ### `findArg2`: the plain arguments first, then the sub-group arguments -/
+
+theorem mem_plain_or_sub (args : List Arg) (a : Arg) (ha : a ∈ args) : a ∈ plainArgs args ∨ a ∈ subGroupArgs args := by
+  unfold plainArgs subGroupArgs
+  cases hg : a.subGroup with
+  | none => exact Or.inl (List.mem_filter.mpr ⟨ha, by simp [hg]⟩)
+  | some k => exact Or.inr (List.mem_filter.mpr ⟨ha, by simp [hg]⟩)
+
+theorem plainArgs_sub (args : List Arg) : ∀ a ∈ plainArgs args, a ∈ args := fun _ h => (List.mem_filter.mp h).1
+theorem subGroupArgs_sub (args : List Arg) : ∀ a ∈ subGroupArgs args, a ∈ args := fun _ h => (List.mem_filter.mp h).1
+
+/-- a handler without sub-group arguments (every sub-group handler here): one container -/
+theorem plainArgs_all (args : List Arg) (h : ∀ a ∈ args, a.subGroup = none) : plainArgs args = args := by
+  unfold plainArgs
+  rw [List.filter_eq_self]
+  intro a ha; simp [h a ha]
+
+theorem subGroupArgs_none (args : List Arg) (h : ∀ a ∈ args, a.subGroup = none) : subGroupArgs args = [] := by
+  unfold subGroupArgs
+  rw [List.filter_eq_nil_iff]
+  intro a ha; simp [h a ha]
+
+/-- `findArg2` in one statement: an argument meant by the key is found - one with exactly this key whenever
+    there is one -; or none is meant; or no argument has exactly this key and the abbreviation is ambiguous
+    within the container that is searched (the sub-group arguments are only searched when no plain argument is
+    meant) -/
+theorem findArg2_spec (abbr : Bool) (args : List Arg) (k : Key) :
+    (∃ a ∈ args, keyMatches abbr a k = true ∧ findArg2 abbr args k = .ok (some a)
+        ∧ ((∃ b ∈ args, keyEq b.key k = true) → keyEq a.key k = true))
+    ∨ ((∀ a ∈ args, keyMatches abbr a k = false) ∧ findArg2 abbr args k = .ok none)
+    ∨ (findArg2 abbr args k = .throw .runtime_error ∧ abbr = true
+        ∧ (∀ a ∈ args, keyEq a.key k = false)
+        ∧ ∃ c, (c = plainArgs args ∨ (c = subGroupArgs args ∧ ∀ a ∈ plainArgs args, keyMatches abbr a k = false))
+          ∧ ∃ pre a post, c = pre ++ a :: post ∧ keyStartsWith a.key k = true
+              ∧ ∃ p ∈ pre, keyStartsWith p.key k = true) := by
+  unfold findArg2
+  cases hx1 : findExact k (plainArgs args) with
+  | some a =>
+    obtain ⟨hm, hk⟩ := findExact_some k _ a hx1
+    exact Or.inl ⟨a, plainArgs_sub _ a hm, by simp [keyMatches, hk], rfl, fun _ => hk⟩
+  | none =>
+    simp only
+    cases hx2 : findExact k (subGroupArgs args) with
+    | some a =>
+      obtain ⟨hm, hk⟩ := findExact_some k _ a hx2
+      exact Or.inl ⟨a, subGroupArgs_sub _ a hm, by simp [keyMatches, hk], rfl, fun _ => hk⟩
+    | none =>
+      simp only
+      have hne : ∀ a ∈ args, keyEq a.key k = false := by
+        intro a ha
+        rcases mem_plain_or_sub args a ha with h | h
+        · exact findExact_none k _ hx1 a h
+        · exact findExact_none k _ hx2 a h
+      have hnoex : (∃ b ∈ args, keyEq b.key k = true) → False := by
+        rintro ⟨b, hb, hbk⟩; rw [hne b hb] at hbk; cases hbk
+      rcases findArg_spec abbr (plainArgs args) k with ⟨a, ha, hm, hf⟩ | ⟨hn, hf⟩ | ⟨hf, hab, _, hrest⟩
+      · left; rw [hf]; exact ⟨a, plainArgs_sub _ a ha, hm, rfl, fun h => (hnoex h).elim⟩
+      · rw [hf]
+        simp only
+        rcases findArg_spec abbr (subGroupArgs args) k with ⟨a, ha, hm, hf2⟩ | ⟨hn2, hf2⟩ | ⟨hf2, hab, _, hrest⟩
+        · left; exact ⟨a, subGroupArgs_sub _ a ha, hm, hf2, fun h => (hnoex h).elim⟩
+        · right; left
+          refine ⟨?_, hf2⟩
+          intro a ha
+          rcases mem_plain_or_sub args a ha with h | h
+          · exact hn a h
+          · exact hn2 a h
+        · right; right
+          exact ⟨hf2, hab, hne, _, Or.inr ⟨rfl, hn⟩, hrest⟩
+      · right; right
+        rw [hf]
+        exact ⟨rfl, hab, hne, _, Or.inl rfl, hrest⟩
 
 end CelmaVerif.Usage
